@@ -146,6 +146,9 @@ struct Frame {
     lists: usize,
     heading: Option<usize>,
     blocks_in_item: usize,
+    /// number of atoms recorded when the frame was opened: a quote or list that ends without having added any carries
+    /// nothing and does not count as an instance
+    atoms_at_start: usize,
 }
 
 pub fn line_starts(src: &str) -> Vec<usize> {
@@ -194,6 +197,7 @@ pub fn scan(src: &str) -> Scan {
         lists: 0,
         heading: None,
         blocks_in_item: 0,
+        atoms_at_start: 0,
     }];
     let mut open: Option<Open> = None;
     // stack of open link/image indices
@@ -339,6 +343,7 @@ pub fn scan(src: &str) -> Scan {
                         lists: 0,
                         heading: None,
                         blocks_in_item: 0,
+                        atoms_at_start: out.atoms.len(),
                     });
                 }
                 Tag::List(start) => {
@@ -354,6 +359,7 @@ pub fn scan(src: &str) -> Scan {
                         lists: 0,
                         heading: None,
                         blocks_in_item: 0,
+                        atoms_at_start: out.atoms.len(),
                     });
                 }
                 Tag::Item => {
@@ -369,6 +375,7 @@ pub fn scan(src: &str) -> Scan {
                         lists: 0,
                         heading: None,
                         blocks_in_item: 0,
+                        atoms_at_start: out.atoms.len(),
                     });
                 }
                 Tag::Table(aligns) => {
@@ -438,9 +445,12 @@ pub fn scan(src: &str) -> Scan {
                     let o = open.as_mut().unwrap();
                     let idx = out.links.len();
                     let at = o.atom.text.chars().count();
+                    // the parser reports "[[note]]" one byte short: the source span of the link ends after the second "]"
+                    let range = if matches!(kind, LKind::Wiki | LKind::WikiPiped) && src.as_bytes().get(range.end) == Some(&b']') { range.start..range.end + 1 } else { range.clone() };
                     out.links.push(LinkOcc {
+                        // "[[note\|text]]" in a table cell: the parser leaves the backslash that escapes the pipe on the name
+                        dest: if kind == LKind::WikiPiped { dest_url.trim_end_matches('\\').to_string() } else { dest_url.to_string() },
                         kind,
-                        dest: dest_url.to_string(),
                         title: title.to_string(),
                         text: String::new(),
                         range: range.clone(),
@@ -492,13 +502,25 @@ pub fn scan(src: &str) -> Scan {
                     in_html = false;
                     close!();
                 }
-                TagEnd::BlockQuote(_) | TagEnd::Item => {
+                TagEnd::BlockQuote(_) => {
+                    close!();
+                    let f = frames.pop().unwrap();
+                    if out.atoms.len() == f.atoms_at_start {
+                        let p = frames.last_mut().unwrap();
+                        p.quotes = p.quotes.saturating_sub(1);
+                    }
+                }
+                TagEnd::Item => {
                     close!();
                     frames.pop();
                 }
                 TagEnd::List(_) => {
                     close!();
-                    frames.pop();
+                    let f = frames.pop().unwrap();
+                    if out.atoms.len() == f.atoms_at_start {
+                        let p = frames.last_mut().unwrap();
+                        p.lists = p.lists.saturating_sub(1);
+                    }
                 }
                 TagEnd::Table => {
                     close!();
@@ -536,7 +558,22 @@ pub fn scan(src: &str) -> Scan {
                 }
                 o.atom.text.push_str(&t);
             }
-            Event::Code(t) | Event::InlineHtml(t) | Event::InlineMath(t) | Event::DisplayMath(t) => {
+            Event::InlineHtml(t) => {
+                ensure_inline_block!(range);
+                let o = open.as_mut().unwrap();
+                if inline_depth == 0 {
+                    o.atom.top_inlines += 1;
+                }
+                // a tag or comment that spans lines is handed out as the raw source slice: its continuation lines start
+                // with the indentation / quote markers of the container, which are not part of the text
+                for (n, line) in t.lines().enumerate() {
+                    if n > 0 {
+                        o.atom.text.push('\n');
+                    }
+                    o.atom.text.push_str(if n == 0 { line } else { line.trim_start_matches(|c| c == ' ' || c == '\t' || c == '>') });
+                }
+            }
+            Event::Code(t) | Event::InlineMath(t) | Event::DisplayMath(t) => {
                 ensure_inline_block!(range);
                 let o = open.as_mut().unwrap();
                 if inline_depth == 0 {
@@ -587,9 +624,28 @@ pub fn dest(d: &str) -> String {
     }
 }
 
+/// a destination inside the library: no scheme ("https:", "mailto:", "file:", "zotero:" ...) and not an absolute path
 pub fn is_internal(dest: &str) -> bool {
-    let d = dest.to_lowercase();
-    !(d.starts_with("http://") || d.starts_with("https://") || d.starts_with("mailto:"))
+    if dest.starts_with('/') {
+        return false;
+    }
+    match dest.find(':') {
+        Some(n) if n > 1 => {
+            let scheme = &dest[..n];
+            let first = scheme.chars().next().unwrap();
+            !(first.is_ascii_alphabetic() && scheme.chars().all(|c| c.is_ascii_alphanumeric() || c == '+' || c == '-' || c == '.'))
+        }
+        _ => true,
+    }
+}
+
+/// does this internal destination spell the name of a note (as opposed to an anchor, a query, or a file of another type)?
+pub fn is_note_like(dest: &str) -> bool {
+    if dest.ends_with(".md") {
+        return true;
+    }
+    let last = dest.rsplit('/').next().unwrap_or(dest);
+    !(dest.is_empty() || dest.contains('#') || dest.contains('?') || last.contains('.'))
 }
 
 /// independent key algebra: directory of a key
